@@ -35,6 +35,27 @@ CHECKS = {
         "assumptions": ["node v20 implements ECMAScript correctly on the compared core",
                         "the in-program printer (harness/src/prelude.js) uses only features that behave identically on both engines for the printed values"],
     },
+    "C02": {
+        "engines": NATIVE,
+        "level": "exploration",
+        "rule": "programs = single atom cells (every built-in that allocates while holding inputs: callbacks, getters, proxies, "
+                "iterators, JSON, Map/Set, regexp, string/array methods with freshly allocated otherwise-unreferenced arguments; the "
+                "pure operator matrix is thinned) + statement-level snippets + composed programs of the shared corpus; each program "
+                "is run with the collector off and under thresholds 1,2,3,5,7,100 and a forced collect() before every step, and for "
+                "a subset under a single forced collect() at every individual step. A (program, schedule) pair is non-trivial when "
+                "the H1 counters show that a collection swept at least one object during the run; pairs are distinct by construction",
+        "exhaustive": "every inter-step collection point of the subset of short programs (see observed.programs_with_every_collection_point)",
+        "floor": {"quick": 20000, "thorough": 100000},
+        "unit_timeout": {"default": 900},
+        "technique": "runtime monitoring: metamorphic oracle over GC schedules (collector off vs thresholds / host-forced collections) "
+                     "plus the H1 slot-generation hook that reports every use of a reclaimed object",
+        "level_text": "The same program must produce the same outcome tuple under every collection schedule, and the generation "
+                      "stamps must show no borrow/guard/trace through a handle whose slot was reclaimed. Findings are attributed to "
+                      "a single cell or program.",
+        "level_note": "only objects the program subsequently touches or the hook sees dereferenced are checked; programs that die "
+                      "even with the collector off are not judged here",
+        "assumptions": ["H1 stamps are maintained by the feature-guarded hook only and do not change behaviour (2454 tests pass with the feature on)"],
+    },
     "C13": {
         "engines": {"quick": ["native", "asan", "miri"], "thorough": ["native", "asan", "miri"]},
         "optional_engines": ["asan", "miri"],
